@@ -1,20 +1,28 @@
 #!/bin/bash
 # usage: trymutant.sh <patch.diff> <prop> [<prop>...]   (env BKSIM_RUNS honoured)
-# Applies the patch to /repo's working tree, builds+tests the repo, runs the given quick checks, restores /repo.
+# Applies the patch to the repository under test (BKSIM_REPO, default /repo), builds+tests it, runs the given
+# quick checks against it, restores it. With BKSIM_REPO pointing at a scratch copy nothing touches /repo.
 export GOFLAGS=-mod=mod GOPROXY=off GOSUMDB=off GOTOOLCHAIN=local
 # evidence of runs against a deliberately broken tree must not overwrite the registered evidence files
-export BKSIM_EVIDENCE_DIR=/tmp/bksim-mutant-evidence; mkdir -p $BKSIM_EVIDENCE_DIR
+export BKSIM_EVIDENCE_DIR=${BKSIM_EVIDENCE_DIR:-/tmp/bksim-mutant-evidence}; mkdir -p $BKSIM_EVIDENCE_DIR
+REPO=${BKSIM_REPO:-/repo}
+V=$(cd "$(dirname "$0")/.." && pwd)
 patch="$1"; shift
-cd /repo || exit 2
-if [ -n "$(git status --porcelain)" ]; then echo "/repo not clean"; exit 2; fi
-git apply "$patch" || { echo "patch does not apply"; exit 2; }
-trap 'git -C /repo checkout -- . ; git -C /repo clean -fdq' EXIT
+cd $REPO || exit 2
+if [ -e .git ]; then
+  if [ -n "$(git status --porcelain)" ]; then echo "$REPO not clean"; exit 2; fi
+  git apply "$patch" || { echo "patch does not apply"; exit 2; }
+  trap 'git -C '$REPO' checkout -- . ; git -C '$REPO' clean -fdq' EXIT
+else
+  patch -p1 -s < "$patch" || { echo "patch does not apply"; exit 2; }
+  trap 'cd '$REPO' && patch -p1 -R -s < '"$patch" EXIT
+fi
 if ! go build ./... 2>&1 | tail -5; then echo BUILD-FAILED; fi
 t=$(go test -vet=off -count=1 ./... 2>&1); if echo "$t" | grep -q "^FAIL\|^---"; then echo "EXISTING TESTS FAIL WITH THIS PATCH"; echo "$t" | grep -E "^(---|FAIL)" | head; else echo "existing tests pass"; fi
-cd /verif
+cd $V
 for p in "$@"; do
   out=$(./check $p quick 2>&1); rc=$?
   echo "== $p exit=$rc: $(echo "$out" | grep -E '^(VIOLATION|CHECK-TROUBLE|OK)' | head -2 | tr '\n' ' ')"
   echo "$out" | grep -E "oracle=" | sort | uniq -c | sort -rn | head -4
 done
-rm -f /verif/replays/*.json
+rm -f $V/replays/*.json
